@@ -110,7 +110,7 @@ def main(argv=None):
     from aw_core.models import Event
     import aw_transform.heartbeats as hb
 
-    ck.prove(extra_targets=["Bridge/BridgeHeartbeat.v"], gen_kernels=["heartbeat_merge"])
+    ck.prove(extra_targets=["Bridge/BridgeHeartbeat.v"], gen_kernels=["heartbeat_merge", "heartbeat_reduce"])
     have_driver = ck.driver()
 
     n_pairs, n_lists = (3000, 1500) if ck.tier == "quick" else (150000, 60000)
